@@ -8,12 +8,12 @@ var realExec = []string{
 }
 var stubExec = []string{"resolvers/directives/custom scalar (universal resolver driven by the plan)", "goroutine release order (scheduler)", "clock (synctest)", "no transport: the response function is driven directly"}
 
-var allCore = []string{"v0", "v1", "v2", "v3", "v4", "v5", "v6"}
+var allCore = []string{"v0", "v1", "v2", "v3", "v4", "v5", "v6", "v7"}
 
 var specs = map[string]*propSpec{
 	"C01": {
 		ID: "C01", Scenario: "execsim", Race: false, Level: "exploration", Cpu: 2,
-		Quick:    tierSpec{Runs: 60000, Budget: 60 * time.Second, Variants: []string{"v0", "v1", "v3", "v6"}},
+		Quick:    tierSpec{Runs: 60000, Budget: 60 * time.Second, Variants: allCore},
 		Thorough: tierSpec{Runs: 3000000, Budget: 15 * time.Minute, Variants: allCore},
 		Real:     realExec, Stubbed: stubExec,
 		Rule: "one run = one (variant, operation, variables, plan, release discipline) executed in a synctest bubble with every resolver/directive call parked and released by the seeded scheduler; operations come from the hand-written corpus or the grammar generator (validated by gqlparser); the response is compared with the reference executor (data with key order, error multiset by path and class). non-trivial = at least two calls were parked together at some quiescent point or the plan produced at least one error; distinct = distinct hash of (variant, operation, plan parameters, released-key sequence)",
@@ -22,8 +22,8 @@ var specs = map[string]*propSpec{
 	},
 	"C06": {
 		ID: "C06", Scenario: "execsim", Race: true, Level: "exploration", Cpu: 4,
-		Quick:    tierSpec{Runs: 8000, Budget: 75 * time.Second, Variants: []string{"v0", "v3", "v4"}},
-		Thorough: tierSpec{Runs: 400000, Budget: 15 * time.Minute, Variants: []string{"v0", "v1", "v2", "v3", "v4", "v5", "v6"}},
+		Quick:    tierSpec{Runs: 8000, Budget: 75 * time.Second, Variants: []string{"v0", "v3", "v4", "v7"}},
+		Thorough: tierSpec{Runs: 400000, Budget: 15 * time.Minute, Variants: allCore},
 		Real:     realExec, Stubbed: stubExec,
 		Rule: "one run = one (variant, operation, plan) executed under six schedules (first, last, deepest-first, 2 seeded one-at-a-time, 1 seeded burst releasing several calls at once) in one bubble of a -race binary; data and error multiset must be identical across schedules and equal to the reference; for mutations the parked set must stay inside one root field and roots must start in document order. non-trivial = at least two calls parked together; distinct = hash of (variant, operation, plan, the six released-key sequences)",
 		Faults: "adversarial completion orders; burst releases for the race detector",
@@ -49,7 +49,7 @@ var specs = map[string]*propSpec{
 	},
 	"C13": {
 		ID: "C13", Scenario: "execsim", Level: "exploration", Cpu: 2,
-		Quick:    tierSpec{Runs: 40000, Budget: 75 * time.Second, Variants: []string{"v0", "v1", "v3"}},
+		Quick:    tierSpec{Runs: 40000, Budget: 75 * time.Second, Variants: []string{"v0", "v1", "v2", "v3"}},
 		Thorough: tierSpec{Runs: 2000000, Budget: 15 * time.Minute, Variants: allCore},
 		Real:     realExec, Stubbed: stubExec,
 		Rule: "one run = one (variant, operation with @defer on a tape-chosen subset of fragments - nested, in lists, if:true/false/variable, shared/distinct/absent labels -, plan incl. failures inside groups, group completion order chosen by the scheduler). Oracle: payload sequence discipline (no path on the first, hasNext, termination, each (path,label) once, each field once), arrival-order applicability of every path, merged data == reference result (propagation stopping at objects whose group came back null, membership read from the payloads), no error the plain execution would not report. non-trivial = at least one incremental payload; distinct = hash of (variant, operation, plan, released-key sequence)",
